@@ -1886,3 +1886,103 @@ mod worlds {
         rec.finish();
     }
 }
+
+// ---------------------------------------------------------------------------------------------
+// every shard pads: dummy records are added on each shard of a helper, also on one that received no rows
+// ---------------------------------------------------------------------------------------------
+//
+// The number of dummy records is a property of the configuration, not of the data: a shard that happens to receive no
+// input rows still has to run the three padding passes (otherwise the total number of rows entering the shuffle tells
+// whether a shard was empty). Observed on the wire of complete hybrid runs: the `send_num_fake_records` messages of the
+// report-padding passes, per shard.
+
+#[cfg(not(feature = "shuttle"))]
+mod every_shard_pads {
+    use std::sync::{Arc, Mutex};
+
+    use serde_json::json;
+
+    use crate::verif::{
+        vlib::{self, Recorder, VRng},
+        wl::{self, Exec, HybridCase, Rep, TapState},
+    };
+
+    #[test]
+    fn verif_c12_every_shard_pads() {
+        let env = vlib::env();
+        let mut rec = Recorder::new("C12", "verif_c12_every_shard_pads");
+        let cases = env.pick(6, 36);
+        for idx in 0..cases {
+            if !env.mine(idx) {
+                continue;
+            }
+            let mut r = VRng::new(env.seed ^ 0xc12e, idx as u64);
+            let shards = [2usize, 3, 2, 5][idx % 4];
+            // all reports on one shard / on all but one shard / spread over all shards (control)
+            let layout = idx % 3;
+            let keys = 2 + r.below(5);
+            let mut reports = Vec::new();
+            for k in 0..keys {
+                reports.push(Rep::Imp { mk: 100 + k, bk: r.below(30) as u8 });
+                reports.push(Rep::Conv { mk: 100 + k, v: 1 + r.below(6) as u8 });
+            }
+            let home = r.below(shards as u64) as usize;
+            let assign: Vec<usize> = (0..reports.len())
+                .map(|i| match layout {
+                    0 => home,
+                    1 => {
+                        let s = i % (shards - 1);
+                        if s >= home { s + 1 } else { s }
+                    }
+                    _ => i % shards,
+                })
+                .collect();
+            let empty: Vec<usize> = (0..shards).filter(|s| !assign.contains(s)).collect();
+            let case = HybridCase {
+                reports,
+                assign,
+                shards,
+                malicious: idx % 2 == 0,
+                padding: true,
+                hv_bits: 32,
+                world_seed: env.seed.wrapping_mul(211) + idx as u64,
+                exec: Exec::Paused,
+            };
+            let state = Arc::new(Mutex::new(TapState::default()));
+            let run = wl::run_hybrid(&case, Some(wl::tap(Arc::clone(&state))));
+            rec.eval();
+            if !run.all_ok() {
+                rec.inconclusive(format!("case {idx}: the padded hybrid run did not complete on every helper ({})", run.leader_classes()));
+                continue;
+            }
+            let st = state.lock().unwrap();
+            // per shard: passes of the report padding on which a fake-record count was announced
+            let mut missing = Vec::new();
+            for s in 0..shards {
+                for pass in ["padding_dp_pass1", "padding_dp_pass2", "padding_dp_pass3"] {
+                    let seen = st.chunks.iter().any(|c| c.key.shard as usize == s && c.key.gate.contains("report_padding_dp") && c.key.gate.contains(pass) && c.key.gate.contains("send_num_fake_records"));
+                    if !seen {
+                        missing.push((s, pass));
+                    }
+                }
+            }
+            if missing.is_empty() {
+                rec.count("padded_runs_every_shard_announced_all_passes");
+                if !empty.is_empty() {
+                    rec.count("padded_runs_with_a_shard_without_rows");
+                }
+                rec.distinct(&("pads", shards, layout, case.malicious, idx));
+            } else {
+                rec.violation(
+                    "a shard ran no dummy-record pass: the number of dummy records depends on whether the shard received rows",
+                    json!({"kind": "shard_without_padding_pass", "shard_had_rows": !empty.contains(&missing[0].0)}),
+                    json!({"case": idx, "hybrid_case": case.summary(), "shards_without_rows": empty, "missing": missing.iter().map(|(s, p)| format!("shard {s}: {p}")).collect::<Vec<_>>()}),
+                );
+            }
+            if rec.want_sample() {
+                rec.sample(json!({"case": idx, "hybrid_case": case.summary(), "shards_without_rows": empty}));
+            }
+        }
+        rec.finish();
+    }
+}
